@@ -254,6 +254,16 @@ func classifyLoop(fn *ssa.Function, l *loopInfo, consuming map[*ssa.Function]boo
 						}
 					}
 				}
+				// ... or a field that the loop itself stores from the result of a consuming call (r.err = read(...); if r.err != nil)
+				for b := range l.Body {
+					for _, in := range b.Instrs {
+						if st, ok := in.(*ssa.Store); ok {
+							if fv := fieldVar(st.Addr); fv != nil && dependsOn(st.Val, avoid, 0, map[ssa.Value]bool{}) {
+								latched[fv] = true
+							}
+						}
+					}
+				}
 				for _, iff := range exits {
 					if loadsLatched(iff.Cond, latched, 0) {
 						dep = true
